@@ -40,9 +40,9 @@ GRAPHS = {
     # one-way ring 0->1->3->2->0 with a two-way shortcut 0<->3
     1: dict(xy=XY0, edges=[(0, 1), (1, 3), (3, 2), (2, 0), (0, 3), (3, 0)],
             sym=[(0, 1), (1, 3), (0, 3), (3, 2)]),
-    # two-way ring with a PARALLEL edge 2->0 (MultiDiGraph key 1): two spatial-index entries share one link id
+    # two-way ring with a PARALLEL edge 0->1 (MultiDiGraph key 1): two spatial-index entries share one link id
     2: dict(xy=XY0, edges=[(0, 1), (1, 0), (1, 3), (3, 1), (3, 2), (2, 3), (2, 0), (0, 2)],
-            sym=[(0, 1), (1, 3), (3, 2), (2, 0)], parallel=[(2, 0)]),
+            sym=[(0, 1), (1, 3), (3, 2), (2, 0)], parallel=[(0, 1)]),
 }
 G = GRAPHS[GRAPH]
 EDGES = G["edges"]
@@ -141,9 +141,18 @@ def _pos(line, link_id, idx):
     return None
 
 
-def h_fastest(l0: int, l1: int, l2: int, l3: int, k: int) -> bool:
+# warm-up queries: for every junction n one query whose search ends at n (destination link starts at n) and starts
+# as far away as possible, so that a search state kept on the network instance would be populated "towards n"
+WARM = []
+for _n in sorted(G["xy"]):
+    _dl = [l for l in LINK_IDS if int(l.split("-")[0]) == _n]
+    _ol = sorted([l for l in LINK_IDS if int(l.split("-")[1]) != _n and l not in _dl], key=lambda l: -_npaths(l, _dl[0]))
+    WARM.append((_ol[0], _dl[0]))
+
+
+def h_fastest(l0: int, l1: int, l2: int, l3: int, k: int, w: int) -> bool:
     """
-    pre: 0 <= k <= 5
+    pre: 0 <= k <= 5 and 0 <= w <= 3
     post: _
     """
     b = _build(l0, l1, l2, l3, k)
@@ -153,8 +162,10 @@ def h_fastest(l0: int, l1: int, l2: int, l3: int, k: int) -> bool:
     o = EntityPosition(O_LINK, net.link_helper.links[O_LINK].start)
     d = EntityPosition(D_LINK, net.link_helper.links[D_LINK].end)
     # an earlier query towards another destination on the same network instance must not influence this one
-    w_o, w_d = PAIRS[(PAIR + 3) % len(PAIRS)]
-    net.route(EntityPosition(w_d, net.link_helper.links[w_d].start), EntityPosition(w_o, net.link_helper.links[w_o].end))
+    for i in range(len(WARM)):
+        if w == i:
+            w_o, w_d = WARM[i]
+            net.route(EntityPosition(w_o, net.link_helper.links[w_o].start), EntityPosition(w_d, net.link_helper.links[w_d].end))
     route = net.route(o, d)  # ---- real code
     if len(route) < 2:
         return False
@@ -209,16 +220,19 @@ def h_connected(l0: int, l1: int, l2: int, l3: int, k: int, oi: int, di: int) ->
 
 # ------------------------------------------------------------------------------------- snapping / haversine
 _SNAP_CANDS = []
-for _lid in (LINK_IDS[:2] + LINK_IDS[-2:]):
+for _k, _lid in enumerate(LINK_IDS):
     _ln = h3.h3_line(_net0.link_helper.links[_lid].start, _net0.link_helper.links[_lid].end)
     _mid = _ln[len(_ln) // 2]
-    _SNAP_CANDS += [_ln[0], _mid, _ln[-1]] + sorted(h3.k_ring(_mid, 3) - set(_ln))[:3] + [sorted(h3.k_ring(_mid, 40) - h3.k_ring(_mid, 39))[0]]
+    _SNAP_CANDS += [_ln[0], _mid, _ln[-1]]
+    if _k < 4:
+        _SNAP_CANDS += sorted(h3.k_ring(_mid, 3) - set(_ln))[:2] + [sorted(h3.k_ring(_mid, 40) - h3.k_ring(_mid, 39))[0]]
+assert len(_SNAP_CANDS) <= 48
 
 
 def h_snap(i: int) -> bool:
     """
-    snapping any location yields a position that lies on the link it names (finite candidate set: enumeration by forking)
-    pre: 0 <= i < 28
+    snapping any location yields a position that lies on the link it names (finite candidate set: start / middle / end cell of every link, cells beside and far from the first links; enumeration by forking)
+    pre: 0 <= i < 48
     post: _
     """
     g = None
